@@ -9,7 +9,9 @@ PROP = 'C06'
 LEVEL = 'exploration'
 RULE = ('texts = token-level mutations (delete/duplicate/swap/replace/insert, identifier cross-substitution) of '
         'valid generated programs and repo snippets + statement-form sweep (every statement keyword with '
-        'missing/extra/wrongly-typed operands in main, SUB, block and one-line IF) + the unmutated programs; each '
+        'missing/extra/wrongly-typed operands in main, SUB, block and one-line IF) + the namespace family (one base name '
+        'declared as SUB/FUNCTION/variable/array/CONST/TYPE/label/record/parameter/STATIC with every type suffix and used as '
+        'each of ~190 other things, in the main program and in a procedure) + the unmutated programs; each '
         'compiled at 2 of the 6 configurations (sweep: all 6), accepted ones also assembled (bytes) and listed (str); '
         'non-trivial = text reached the parser with >=1 statement; distinct = text hash with digits erased')
 ASSUMPTIONS = ['termination is judged by a 30 s then 90 s wall-clock guard per compilation (a text that exceeds both '
@@ -109,6 +111,72 @@ PRELUDE = ('TYPE tt\na AS INTEGER\nb AS STRING\nEND TYPE\nDIM r AS tt\nDIM r2 AS
 POSTLUDE = ('\nEND\nlbl: PRINT 1\nRETURN\n10 DATA 1, 2\nnodata: PRINT 2\nSUB s (p%)\nEND SUB\nFUNCTION f (p%)\nf = p%\nEND FUNCTION\n')
 
 
+# --- namespace family: one base name declared as one kind of thing and used as another (every suffix combination) ---
+NS_DSUF = ['', '%', '&', '$', '#']
+NS_USUF = ['', '%', '$', '#', '!']
+
+
+def _v(suf):
+    return '"a"' if suf == '$' else '1'
+
+
+NS_DECLS = (
+    [('sub', 'SUB q\nEND SUB', 'post'), ('type', 'TYPE q\na AS INTEGER\nEND TYPE', 'pre'), ('label', 'q:', 'pre'),
+     ('lineno-like', 'q: DATA 1, 2', 'post'), ('record', 'DIM q AS tt', 'pre'), ('recarray', 'DIM q(2) AS tt', 'pre'),
+     ('defint', 'DEFINT Q', 'pre'), ('declare-sub', 'DECLARE SUB q ()', 'pre'), ('dim-as', 'DIM q AS LONG', 'pre'),
+     ('dim-as-str', 'DIM q AS STRING', 'pre'), ('shared-arr', 'DIM SHARED q(3) AS INTEGER', 'pre')]
+    + [(f'function{d}', f'FUNCTION q{d}\nq{d} = {_v(d)}\nEND FUNCTION', 'post') for d in NS_DSUF]
+    + [(f'dim{d}', f'DIM q{d}', 'pre') for d in NS_DSUF]
+    + [(f'array{d}', f'DIM q{d}(3)', 'pre') for d in NS_DSUF]
+    + [(f'shared{d}', f'DIM SHARED q{d}', 'pre') for d in NS_DSUF]
+    + [(f'const{d}', f'CONST q{d} = {_v(d)}', 'pre') for d in NS_DSUF]
+    + [(f'declare-function{d}', f'DECLARE FUNCTION q{d} ()', 'pre') for d in NS_DSUF]
+    + [(f'param{d}', f'q{d}', 'param') for d in NS_DSUF]
+    + [(f'arrparam{d}', f'q{d}()', 'param') for d in NS_DSUF]
+    + [(f'static{d}', f'STATIC q{d}', 'insub') for d in NS_DSUF]
+    + [(f'local-const{d}', f'CONST q{d} = {_v(d)}', 'insub') for d in NS_DSUF]
+    + [(f'implicit{d}', f'q{d} = {_v(d)}', 'pre') for d in NS_DSUF]
+)
+NS_USES = (
+    ['GOTO q', 'GOSUB q', 'RESTORE q', 'ON ERROR GOTO q', 'DIM zz AS q', 'SUB q\nEND SUB', 'TYPE q\na AS LONG\nEND TYPE', 'q:',
+     'DECLARE SUB q ()', 'CALL q', 'CALL q(1)', 'DEFSTR Q', 'RETURN q', 'RESUME q']
+    + [t.format(u=u, v=_v(u)) for u in NS_USUF for t in (
+        'q{u} = {v}', 'PRINT q{u}', 'q{u}', 'q{u} 1', 'PRINT q{u}(1)', 'q{u}(1) = {v}', 'FOR q{u} = 1 TO 2\nNEXT', 'INPUT q{u}',
+        'READ q{u}', 'DIM q{u}', 'DIM q{u}(2)', 'CONST q{u} = {v}', 'q{u}.a = 1', 'PRINT q{u}.a', 'PRINT LEN(q{u})', 'PRINT UBOUND(q{u})',
+        's q{u}', 'x = f(q{u})', 'FUNCTION q{u}\nEND FUNCTION', 'STATIC q{u}', 'SHARED q{u}', 'DIM SHARED q{u}', 'PRINT q{u}(1).a',
+        'x = q{u} + 1', 'x$ = q{u} + "a"', 'PRINT q{u}()', 'sa q{u}()', 'INPUT q{u}(1)', 'IF q{u} THEN PRINT 1', 'SELECT CASE q{u}\nCASE 1\nEND SELECT',
+        'DIM zw(q{u})', 'CONST zc = q{u}', 'PRINT q{u}; : q{u} = {v}', 'WHILE q{u}\nWEND', 'LOCATE q{u}, 1', 'POKE q{u}, q{u}')]
+)
+NS_TAIL = ('\nEND\nSUB s (p%)\nEND SUB\nFUNCTION f (p%)\nf = p%\nEND FUNCTION\nSUB sa (p%())\nEND SUB\n')
+NS_HEAD = 'TYPE tt\na AS INTEGER\nb AS STRING\nEND TYPE\n'
+
+
+def ns_text(di, ui, where):
+    name, decl, place = NS_DECLS[di]
+    use = NS_USES[ui]
+    toplevel_use = use.startswith(('SUB ', 'FUNCTION ', 'TYPE ', 'DECLARE ', 'DEFSTR', 'DIM SHARED'))
+    if place in ('param', 'insub'):
+        if toplevel_use:
+            return None
+        sub = (f'SUB zs ({decl})\n{use}\nEND SUB\n' if place == 'param' else f'SUB zs\n{decl}\n{use}\nEND SUB\n')
+        if where == 'sub':
+            return NS_HEAD + 'x = 1' + NS_TAIL + sub
+        # the declaration lives in a procedure, the use in the main program
+        sub0 = (f'SUB zs ({decl})\nEND SUB\n' if place == 'param' else f'SUB zs\n{decl}\nEND SUB\n')
+        return NS_HEAD + use + NS_TAIL + sub0
+    pre = decl + '\n' if place == 'pre' else ''
+    post = decl + '\n' if place == 'post' else ''
+    if where == 'main' or toplevel_use:
+        if toplevel_use and use.startswith(('SUB ', 'FUNCTION ')):
+            return NS_HEAD + pre + 'x = 1' + NS_TAIL + post + use + '\n'
+        return NS_HEAD + pre + use + NS_TAIL + post
+    return NS_HEAD + pre + 'zs' + NS_TAIL + post + f'SUB zs\n{use}\nEND SUB\n'
+
+
+def ns_space():
+    return [(di, ui, w) for di in range(len(NS_DECLS)) for ui in range(len(NS_USES)) for w in ('main', 'sub')]
+
+
 def contexts(form):
     body = form.replace(' : ', '\n') if (' : ' in form and not form.startswith(('IF', 'PRINT', 'REM', 'DATA', "'", 'CONST c = 1 :'))) else form
     yield 'main', PRELUDE + body + POSTLUDE
@@ -153,6 +221,11 @@ def gen_cases(tier, seed):
     base = gen_cases_corpus(n, seed, opts={'max_stmts': 5, 'max_depth': 2}, with_repo=True)
     for i, b in enumerate(base):
         cs.append({'kind': 'mut', 'base': b, 'n': per if b['src'] == 'gen' else 3, 'mseed': seed * 7919 + i})
+    space = ns_space()
+    if tier == 'quick':
+        space = random.Random(seed * 31 + 5).sample(space, 1400)
+    for i in range(0, len(space), 50):
+        cs.append({'kind': 'ns', 'items': space[i:i + 50]})
     forms = list(STMT_FORMS)
     B = 6
     for i in range(0, len(forms), B):
@@ -212,6 +285,16 @@ def run_case(case):
             shapes.append(shape_of(mt))
             if sample is None and j == 1:
                 sample = {'mutated_text': mt[:400]}
+    elif case['kind'] == 'ns':
+        st['namespace_texts'] = 0
+        for di, ui, w in case['items']:
+            text = ns_text(di, ui, w)
+            if text is None:
+                continue
+            st['namespace_texts'] += 1
+            check_text(text, [(0, False), (2, True)], st, viol, f'namespace[{w}]: {NS_DECLS[di][0]} / {NS_USES[ui]!r}')
+            shapes.append(f'ns|{di}|{ui}|{w}')
+        sample = {'namespace_text': ns_text(*case['items'][0]) or ''}
     else:
         for form in case['forms']:
             for ctx, text in contexts(form):
